@@ -339,6 +339,71 @@ func init() {
 			}
 			out.Sample(map[string]interface{}{"ops": "run; Set(A=5); run; child=Filter; Set(A=6); run; run child; Set(empty); run; run child", "observed": got})
 		}
+		// ---- documents of every size: tens of kilobytes to megabytes of comments and unrelated sections before (and after) the
+		// section that matters - the option is still applied, the inapplicable section is still that lint's fatal
+		{
+			corpusL := loadCorpus()
+			var htmlCert *x509.Certificate
+			var crlObj *x509.RevocationList
+			for _, c := range corpusL.Certs {
+				if c.File == "html_entity_ko1.pem" {
+					htmlCert = c.Cert
+				}
+			}
+			for _, c := range corpusL.CRLs {
+				if c.File == "crl_nextupdate_nup1_sub0_len0_eff0.pem" {
+					crlObj = c.CRL
+				}
+			}
+			sizes := []int{70_000, 1_200_000}
+			if tier() == "thorough" {
+				sizes = append(sizes, 5_000_000)
+			}
+			for _, n := range sizes {
+				var pad strings.Builder
+				for pad.Len() < n {
+					pad.WriteString("# a comment line that carries no setting at all ........................................................\n")
+					if pad.Len()%50_000 < 110 {
+						pad.WriteString(fmt.Sprintf("[unrelated_section_%d]\nA = 1\n", pad.Len()))
+					}
+				}
+				for _, after := range []bool{false, true} {
+					wrap := func(sec string) string {
+						if after {
+							return sec + pad.String()
+						}
+						return pad.String() + sec
+					}
+					if htmlCert != nil {
+						if cfg, err := lint.NewConfigFromString(wrap("[e_subj_contains_html_entities]\nSkip = true\n")); err == nil {
+							fr, _ := g.Filter(lint.FilterOptions{IncludeNames: []string{"e_subj_contains_html_entities"}})
+							fr.SetConfiguration(cfg)
+							if r := zlint.LintCertificateEx(htmlCert, fr).Results["e_subj_contains_html_entities"]; r == nil || r.Status != lint.Pass {
+								out.Violate("C11|large-document-option-lost", fmt.Sprintf("Skip = true in a configuration of %d octets (section %s the padding) is not applied: e_subj_contains_html_entities reports %s", len(wrap("")), map[bool]string{false: "after", true: "before"}[after], showRes(r)),
+									map[string]interface{}{"document_octets": len(wrap("")), "section": "[e_subj_contains_html_entities] Skip = true"}, "pass", showRes(r))
+							}
+						} else {
+							out.Violate("C11|large-document-rejected", fmt.Sprintf("a valid TOML document of %d octets is rejected: %v", len(wrap("")), err), nil, nil, nil)
+						}
+					}
+					if crlObj != nil {
+						if cfg, err := lint.NewConfigFromString(wrap("[e_crl_next_update_invalid]\nSubscriberCRL = \"x\"\n")); err == nil {
+							fr, _ := g.Filter(lint.FilterOptions{IncludeNames: []string{"e_crl_next_update_invalid"}})
+							fr.SetConfiguration(cfg)
+							var r *lint.LintResult
+							func() {
+								defer func() { recover() }()
+								r = zlint.LintRevocationListEx(crlObj, fr).Results["e_crl_next_update_invalid"]
+							}()
+							if r == nil || r.Status != lint.Fatal {
+								out.Violate("C11|large-document-error-lost", fmt.Sprintf("an ill-typed section in a configuration of %d octets no longer makes e_crl_next_update_invalid report a configuration error: %s", len(wrap("")), showRes(r)),
+									map[string]interface{}{"document_octets": len(wrap(""))}, "fatal", showRes(r))
+							}
+						}
+					}
+				}
+			}
+		}
 		// ---- through the command-line tool: an option given with -config reaches the lint, and an inapplicable section is
 		// that lint's fatal, with and without flags that narrow the set of lints
 		if bin := os.Getenv("VERIF_CLI"); bin != "" {
